@@ -10,7 +10,7 @@ import (
 func init() {
 	register(&Property{
 		ID:      "C12",
-		Explain: "Structural clauses of the permessage-deflate plumbing, decided by FOLD and table checks. (1) Tail constants: compressionTail = 00 00 ff ff, compressionReadTail = 00 00 ff ff 01 00 00 ff ff (the first is a prefix of the second), the tail buffer holds 4 bytes and the reader suffix 9. (2) cbuf.Write, the tail-withholding proxy, is evaluated with symbolic byte lanes for every fill level 0..4 x write length 0..12: bytes forwarded to the destination followed by the withheld bytes are exactly the bytes written so far, and min(4, total) bytes are withheld. (3) wsflate.Writer: Write/Flush/Close test the sticky error first; Flush and Close run the compressor and then compare the withheld bytes with the tail constant, a mismatch becoming a sticky error. (4) suffixedReader.Read and ReadByte are siblings: source until EOF (swallowed once), then the suffix from the current position, then io.EOF - evaluated for every suffix position x buffer size. (5) Frame helpers: a non-final frame is refused before anything is written, payload and Header.Length come from the same buf.Bytes(), the compression bit is set/cleared through SetBit/UnsetBit whose result is used, an uncompressed frame is returned unchanged; CompressTo = Write, Flush, Close with every error returned. NOT decided: anything about DEFLATE streams themselves (that compress/flate output plus the tail inflates to the input, interoperability, window sizes, chunked inflation) - the core of the property is out of reach for this technique. pooled-memory-escape: no frame helper returns a payload that lives in a pooled buffer the helper itself puts back. SetBit / UnsetBit tables (C13.bits-table) are part of this check. reader-read: wsflate.Reader.Read hands on the decompressor's (n, err) unchanged - flate delivers the last bytes of a stream together with io.EOF - and returns a sticky error without reading.",
+		Explain: "Structural clauses of the permessage-deflate plumbing, decided by FOLD and table checks. (1) Tail constants: compressionTail = 00 00 ff ff, compressionReadTail = 00 00 ff ff 01 00 00 ff ff (the first is a prefix of the second), the tail buffer holds 4 bytes and the reader suffix 9. (2) cbuf.Write, the tail-withholding proxy, is evaluated with symbolic byte lanes for every fill level 0..4 x write length 0..12: bytes forwarded to the destination followed by the withheld bytes are exactly the bytes written so far, and min(4, total) bytes are withheld. (3) wsflate.Writer: Write/Flush/Close test the sticky error first; Flush and Close run the compressor and then compare the withheld bytes with the tail constant, a mismatch becoming a sticky error. (4) suffixedReader.Read and ReadByte are siblings: source until EOF (swallowed once), then the suffix from the current position, then io.EOF - evaluated for every suffix position x buffer size. (5) Frame helpers: a non-final frame is refused before anything is written, payload and Header.Length come from the same buf.Bytes(), the compression bit is set/cleared through SetBit/UnsetBit whose result is used, an uncompressed frame is returned unchanged; CompressTo = Write, Flush, Close with every error returned. NOT decided: anything about DEFLATE streams themselves (that compress/flate output plus the tail inflates to the input, interoperability, window sizes, chunked inflation) - the core of the property is out of reach for this technique. pooled-memory-escape: no frame helper returns a payload that lives in a pooled buffer the helper itself puts back. SetBit / UnsetBit tables (C13.bits-table) are part of this check. reader-read: wsflate.Reader.Read hands on the decompressor's (n, err) unchanged - flate delivers the last bytes of a stream together with io.EOF - and returns a sticky error without reading. The tail buffer is folded with failing destination writes: the first failure sticks, nothing follows it to the destination, a later success does not wipe it out.",
 		Trusted: []string{"go/ssa + go/types", "the checker's abstract evaluator", "compress/flate (not analysed)"},
 		Assume:  []string{"round trip / interoperability with an independent DEFLATE implementation is not decided"},
 		Run:     runC12,
